@@ -150,7 +150,7 @@ def extract_reuse_info(text: str) -> ReuseInfo:
     copyright_matches = set()
     for expression in spdx_tags.pop("spdx_expressions"):
         try:
-            expressions.add(_LICENSING.parse(expression))
+            parsed = _LICENSING.parse(expression)
         except (ExpressionError, ParseError):
             _LOGGER.error(
                 _("Could not parse '{expression}'").format(
@@ -158,6 +158,11 @@ def extract_reuse_info(text: str) -> ReuseInfo:
                 )
             )
             raise
+        # A tag without a value (nothing but blanks after the colon) parses
+        # to None. That is no expression, and the text does not declare a
+        # licence by it.
+        if parsed is not None:
+            expressions.add(parsed)
     for line in text.splitlines():
         for pattern in _COPYRIGHT_PATTERNS:
             match = pattern.search(line)
